@@ -2,10 +2,12 @@
 
    Tree side (Model/Section.v sect_tree on rose trees of any depth and branching): partition, chains, maximality.
    List side (Model/Section.v create_branches = the model that is diffed against the real method on every run):
-   what is NOT altered.  The two sides are linked by C16_model_is_tree_function (refinement) where proved and by the
-   kernel-evaluated comparison of every generated case otherwise (component 3 of mismatches16). *)
+   what is NOT altered (C16_alters_nothing, any adjacency list), and the refinement C16_model_is_tree_function:
+   on a cell whose adjacency list is that of the rose tree t the model creates exactly the groups of sect_tree t.
+   C16_model_correct puts all clauses together for the model.  (The same link is also evaluated by the kernel on
+   every generated case: component 3 of mismatches16.) *)
 From Coq Require Import List ZArith QArith Permutation.
-From LNML Require Import Model.Morph Model.Section Proofs.MorphP1 Proofs.SectionP Proofs.SectionP2 Proofs.SectionP3.
+From LNML Require Import Model.Morph Model.Section Proofs.MorphP1 Proofs.SectionP Proofs.SectionP2 Proofs.SectionP3 Proofs.SectionP4.
 Import ListNotations.
 Open Scope Z_scope.
 
@@ -46,6 +48,37 @@ Print Assumptions C16_alters_nothing_applies.
 Theorem C16_reorder_permutes : forall gs, Permutation (reorder_groups gs) gs.
 Proof. exact reorder_groups_perm. Qed.
 Print Assumptions C16_reorder_permutes.
+
+(* refinement: the list-level model IS the rose-tree function, on every cell whose adjacency list is that of a
+   rose tree with distinct ids (tree_adjb), when no group id clashes with a generated name *)
+Theorem C16_model_is_tree_function : forall c gs t,
+  all_ok c -> tree_adjb (adjacency c) t = true -> NoDup (preorder t) -> incl (preorder t) (ids c) ->
+  NoDup (map gid gs ++ map gid (name_groups (Z.of_nat (List.length gs)) 0 (sect_tree t []))) ->
+  exists segs', create_branches c gs (root_id t) false false =
+                Ok (mkst segs' (gs ++ name_groups (Z.of_nat (List.length gs)) 0 (sect_tree t []))) /\
+    cell_upd c segs' /\
+    (forall ms, In ms (rest_groups t) -> has_prox segs' (hd 0 ms)) /\
+    (forall s, find_seg c (root_id t) = Some s -> sprox s <> None \/ sparent s <> None -> has_prox segs' (root_id t)).
+Proof. exact create_branches_refines. Qed.
+Print Assumptions C16_model_is_tree_function.
+
+(* the full statement for the model: partition; every new group a section-marked maximal unbranched chain of the
+   cell's own parent relation (children c n = the tree's children, in document order); explicit proximal point on the
+   first segment of every group; pre-existing groups kept in front unchanged; segments otherwise untouched *)
+Theorem C16_model_correct : forall c gs t,
+  all_ok c -> tree_adjb (adjacency c) t = true -> NoDup (preorder t) -> incl (preorder t) (ids c) ->
+  NoDup (map gid gs ++ map gid (name_groups (Z.of_nat (List.length gs)) 0 (sect_tree t []))) ->
+  exists segs' new,
+    create_branches c gs (root_id t) false false = Ok (mkst segs' (gs ++ new)) /\
+    List.concat (map gmembers new) = preorder t /\ NoDup (List.concat (map gmembers new)) /\
+    (forall g, In g new -> gnlx g = Some section_nlx /\ gincludes g = [] /\
+       exists s e, branch_start t s /\ chain s (gmembers g) e /\ List.length (subtrees e) <> 1%nat) /\
+    (forall n kids, subtree t (Node n kids) -> children c n = map root_id kids) /\
+    (forall g, In g new -> hd 0 (gmembers g) <> root_id t -> has_prox segs' (hd 0 (gmembers g))) /\
+    (forall s, find_seg c (root_id t) = Some s -> sprox s <> None \/ sparent s <> None -> has_prox segs' (root_id t)) /\
+    cell_upd c segs'.
+Proof. exact create_branches_correct. Qed.
+Print Assumptions C16_model_correct.
 
 Theorem C16_domain_inhabited : all_ok MorphP5.ex_cell.
 Proof. exact ex_all_ok. Qed.
